@@ -722,8 +722,20 @@ def opGetAll (cfg : Cfg) (W : World) (st : St) (o : Nat) (i : Str) : Out :=
       | some l => .retD l
       | none => .err .value
 
+/-- `exportObject` can build its InterfacesAdded signal: `getAllProperties(iface.name)` succeeds for every
+interface of `getInterfaces()` and every collected value marshals as a variant (only then does the repaired
+`exportObject` register the object and give it its handler). -/
+def exportOk (cfg : Cfg) (W : World) (st : St) (o : Nat) : Bool :=
+  W.ifaces.all fun f =>
+    match getAllProperties cfg W st o f.name with
+    | some r => r.all fun e => (encodeVariant e.2).isSome
+    | none => false
+
 def step (cfg : Cfg) (W : World) (st : St) : Op → St × List Out
-  | .export o => ({ st with attached := if o ∈ st.attached then st.attached else o :: st.attached }, [.done])
+  | .export o =>
+    if exportOk cfg W st o then
+      ({ st with attached := if o ∈ st.attached then st.attached else o :: st.attached }, [.done])
+    else (st, [.raised])
   | .assign o a v =>
     match resolveAttr W a with
     | none => (st, [.done])     -- an ordinary instance attribute
@@ -741,6 +753,12 @@ def runFrom (cfg : Cfg) (W : World) (st : St) : List Op → St
   | op :: h => runFrom cfg W (step cfg W st op).1 h
 
 def run (cfg : Cfg) (W : World) (h : List Op) : St := runFrom cfg W St.init h
+
+/-- A history with what every operation produced (the specification needs to know which `exportObject`
+calls returned). -/
+def annotate (cfg : Cfg) (W : World) (st : St) : List Op → List (Op × List Out)
+  | [] => []
+  | op :: h => (op, (step cfg W st op).2) :: annotate cfg W (step cfg W st op).1 h
 
 /-- All outputs of a history, one list per operation. -/
 def trace (cfg : Cfg) (W : World) (st : St) : List Op → List (List Out)
